@@ -366,6 +366,13 @@ def run(ctx, eng):
                'or the two compression contexts part; a frame the peer sent '
                'while it still saw the stream open is tolerated once the '
                'stream is gone here')
+    cm.include(ctx, eng, 'C14',
+               lambda o: o.rule in ('PIPE.order', 'PIPE.stages') and
+               isinstance(o.where, str) and
+               o.where.endswith('normalize_outbound_headers'),
+               'what the sender does not refuse it normalises so that the '
+               'receiver accepts it: lower-casing and trimming come before '
+               'the stages that match names')
     cm.include(ctx, eng, 'C05', {'ARITH.increment'},
                'the credit announced to the peer is the credit recorded '
                'here, or a send the peer was entitled to is refused')
